@@ -401,6 +401,9 @@ SYNTH_ENGINE_SPECS = [
     [{"tasks": ["S", "S"], "synth": [{"owner": "B", "tasks": ["K"]}, {"owner": "A", "tasks": ["C"]}]}],
     [{"tasks": ["S"]}, {"reqs": [0], "enabled": False, "synth": [{"owner": "B", "tasks": ["S"]}]}, {"reqs": [1], "tasks": ["S"], "synth": [{"owner": "A", "tasks": ["P"]}]}],
     [{"tasks": ["S"], "synth": [{"owner": "A", "tasks": ["F"]}, {"owner": "A", "tasks": ["S"]}]}],     # FAILED_CONTINUE after-stage: finishes its parent itself
+    # CHAINS of before- and after-stages (the second child has the first one as requisite)
+    [{"tasks": ["S"], "synth": [{"owner": "B", "tasks": ["S"]}, {"owner": "B", "tasks": ["S"], "req": 0}, {"owner": "A", "tasks": ["S"]}, {"owner": "A", "tasks": ["S"], "req": 2}]}],
+    [{"tasks": ["S"], "synth": [{"owner": "B", "tasks": ["F"]}, {"owner": "B", "tasks": ["S"], "req": 0}, {"owner": "A", "tasks": ["T"]}, {"owner": "A", "tasks": ["S"], "req": 2}]}],
 ]
 
 
@@ -416,6 +419,10 @@ def gen_synth_engine_spec(rng) -> list[dict]:
     nb, na = rng.choice([(1, 0), (0, 1), (1, 1), (2, 0), (0, 2), (1, 1)])
     spec[par]["synth"] = [{"owner": "B", "tasks": [rng.choice("SSSSTFKC")]} for _ in range(nb)] + \
                          [{"owner": "A", "tasks": [rng.choice("SSSSTFKC")]} for _ in range(na)]
+    if nb == 2 and rng.random() < 0.5:
+        spec[par]["synth"][1]["req"] = 0
+    if na == 2 and rng.random() < 0.5:
+        spec[par]["synth"][nb + 1]["req"] = nb
     return spec
 
 
